@@ -22,7 +22,31 @@ type c07Typed struct {
 
 	mu     sync.Mutex
 	leases map[string]*message.ChannelLog
+	ctxs   map[string]context.Context
 	churn  int
+}
+
+// SetCtx makes every following call on ch use ctx (nil = live background context).
+func (t *c07Typed) SetCtx(ch *c07Chan, ctx context.Context) {
+	t.mu.Lock()
+	defer t.mu.Unlock()
+	if t.ctxs == nil {
+		t.ctxs = map[string]context.Context{}
+	}
+	if ctx == nil {
+		delete(t.ctxs, ch.Key)
+	} else {
+		t.ctxs[ch.Key] = ctx
+	}
+}
+
+func (t *c07Typed) cx(ch *c07Chan) context.Context {
+	t.mu.Lock()
+	defer t.mu.Unlock()
+	if ctx := t.ctxs[ch.Key]; ctx != nil {
+		return ctx
+	}
+	return c07Ctx
 }
 
 func c07NewTyped(dir string) *c07Typed {
@@ -40,7 +64,7 @@ func (t *c07Typed) Quirks() c07Quirks {
 		HasHash: true, HasHitHash: true, HasCompatFields: false, ExactRetention: true,
 		// An empty payload through the typed API is covered by the dedicated
 		// probe family (see c07ProbeTypedEmptyPayload), not by the random body.
-		EmptyPayloadOK:  false,
+		EmptyPayloadOK: false,
 		// StoreRetentionState is a raw setter: the workload only stores states a
 		// retention adopter would (boundary at or below the log end).
 		HasAdopt: true, AdoptAboveLEOOK: false, TrimAboveLEOOK: true, AppendDefaultsTS: true, ApplyDefaultsTS: true, HasChurn: true,
@@ -67,6 +91,8 @@ func (t *c07Typed) ClassOf(err error) string {
 	switch {
 	case err == nil:
 		return "ok"
+	case errors.Is(err, context.Canceled):
+		return "cancelled"
 	case errors.Is(err, db.ErrConflict):
 		return "conflict"
 	case errors.Is(err, db.ErrInvalidArgument):
@@ -165,7 +191,7 @@ func c07TypedMode(m c07Mode) message.AppendMode {
 var c07Ctx = context.Background()
 
 func (t *c07Typed) Append(ch *c07Chan, mode c07Mode, baseSeq uint64, recs []c07Rec) (uint64, uint64, error) {
-	res, err := t.log(ch).Append(c07Ctx, c07TypedRecords(recs), message.AppendOptions{Mode: c07TypedMode(mode), BaseSeq: baseSeq})
+	res, err := t.log(ch).Append(t.cx(ch), c07TypedRecords(recs), message.AppendOptions{Mode: c07TypedMode(mode), BaseSeq: baseSeq})
 	if err == nil && res.Count != len(recs) {
 		return res.BaseSeq, res.LastSeq, fmt.Errorf("append count %d != %d", res.Count, len(recs))
 	}
@@ -177,7 +203,7 @@ func (t *c07Typed) Apply(ch *c07Chan, baseSeq uint64, recs []c07Rec, ck *c07Ckpt
 	if ck != nil {
 		req.Checkpoint = &message.Checkpoint{Epoch: ck.Epoch, LogStartOffset: ck.LogStart, HW: ck.HW}
 	}
-	res, err := t.log(ch).ApplyFetch(c07Ctx, req)
+	res, err := t.log(ch).ApplyFetch(t.cx(ch), req)
 	return res.LastSeq, err
 }
 
@@ -185,7 +211,7 @@ func (t *c07Typed) Truncate(ch *c07Chan, to uint64) error {
 	if to == ^uint64(0) {
 		return nil
 	}
-	return t.log(ch).TruncateFrom(c07Ctx, to+1)
+	return t.log(ch).TruncateFrom(t.cx(ch), to+1)
 }
 
 func (t *c07Typed) Adopt(ch *c07Chan, through uint64) error {
@@ -199,16 +225,16 @@ func (t *c07Typed) Adopt(ch *c07Chan, through uint64) error {
 	if through > st.RetainedMaxSeq {
 		st.RetainedMaxSeq = through
 	}
-	return t.log(ch).StoreRetentionState(c07Ctx, st)
+	return t.log(ch).StoreRetentionState(t.cx(ch), st)
 }
 
 func (t *c07Typed) Trim(ch *c07Chan, through uint64, maxMsgs, maxBytes int) (c07TrimRes, error) {
 	var res message.RetentionTrimResult
 	var err error
 	if maxMsgs == 0 && maxBytes == 0 {
-		res, err = t.log(ch).TrimPrefixThrough(c07Ctx, through)
+		res, err = t.log(ch).TrimPrefixThrough(t.cx(ch), through)
 	} else {
-		res, err = t.log(ch).TrimPrefixThroughLimit(c07Ctx, through, message.RetentionTrimOptions{MaxMessages: maxMsgs, MaxBytes: maxBytes})
+		res, err = t.log(ch).TrimPrefixThroughLimit(t.cx(ch), through, message.RetentionTrimOptions{MaxMessages: maxMsgs, MaxBytes: maxBytes})
 	}
 	return c07TrimRes{res.DeletedThroughSeq, res.Deleted, res.More}, err
 }
@@ -216,12 +242,12 @@ func (t *c07Typed) Trim(ch *c07Chan, through uint64, maxMsgs, maxBytes int) (c07
 func (t *c07Typed) StoreCkpt(ch *c07Chan, ck c07Ckpt, mono bool, visibleHW, leo uint64) error {
 	c := message.Checkpoint{Epoch: ck.Epoch, LogStartOffset: ck.LogStart, HW: ck.HW}
 	if mono {
-		return t.log(ch).StoreCheckpointMonotonic(c07Ctx, c, visibleHW, leo)
+		return t.log(ch).StoreCheckpointMonotonic(t.cx(ch), c, visibleHW, leo)
 	}
-	return t.log(ch).StoreCheckpoint(c07Ctx, c)
+	return t.log(ch).StoreCheckpoint(t.cx(ch), c)
 }
 
-func (t *c07Typed) LEO(ch *c07Chan) (uint64, error) { return t.log(ch).LEO(c07Ctx) }
+func (t *c07Typed) LEO(ch *c07Chan) (uint64, error) { return t.log(ch).LEO(t.cx(ch)) }
 
 func c07FromTyped(m message.Message) c07Rec {
 	return c07Rec{Seq: m.MessageSeq, ID: m.MessageID, ChannelID: m.ChannelID, ChannelType: m.ChannelType, FromUID: m.FromUID,
@@ -232,9 +258,9 @@ func (t *c07Typed) Scan(ch *c07Chan, from uint64, limit, maxBytes int, reverse b
 	var ms []message.Message
 	var err error
 	if reverse {
-		ms, err = t.log(ch).ReadReverse(c07Ctx, from, message.ReadOptions{Limit: limit, MaxBytes: maxBytes})
+		ms, err = t.log(ch).ReadReverse(t.cx(ch), from, message.ReadOptions{Limit: limit, MaxBytes: maxBytes})
 	} else {
-		ms, err = t.log(ch).Read(c07Ctx, from, message.ReadOptions{Limit: limit, MaxBytes: maxBytes})
+		ms, err = t.log(ch).Read(t.cx(ch), from, message.ReadOptions{Limit: limit, MaxBytes: maxBytes})
 	}
 	out := make([]c07Rec, len(ms))
 	for i, m := range ms {
@@ -244,17 +270,17 @@ func (t *c07Typed) Scan(ch *c07Chan, from uint64, limit, maxBytes int, reverse b
 }
 
 func (t *c07Typed) GetBySeq(ch *c07Chan, seq uint64) (c07Rec, bool, error) {
-	m, ok, err := t.log(ch).GetBySeq(c07Ctx, seq)
+	m, ok, err := t.log(ch).GetBySeq(t.cx(ch), seq)
 	return c07FromTyped(m), ok, err
 }
 
 func (t *c07Typed) GetByID(ch *c07Chan, id uint64) (c07Rec, bool, error) {
-	m, ok, err := t.log(ch).GetByMessageID(c07Ctx, id)
+	m, ok, err := t.log(ch).GetByMessageID(t.cx(ch), id)
 	return c07FromTyped(m), ok, err
 }
 
 func (t *c07Typed) ListByNo(ch *c07Chan, no string, before uint64, limit int) ([]c07Rec, uint64, bool, error) {
-	page, err := t.log(ch).ListByClientMsgNo(c07Ctx, no, before, limit)
+	page, err := t.log(ch).ListByClientMsgNo(t.cx(ch), no, before, limit)
 	out := make([]c07Rec, len(page.Messages))
 	for i, m := range page.Messages {
 		out[i] = c07FromTyped(m)
@@ -263,7 +289,7 @@ func (t *c07Typed) ListByNo(ch *c07Chan, no string, before uint64, limit int) ([
 }
 
 func (t *c07Typed) LookupPair(ch *c07Chan, p c07Pair) (c07Hit, bool, error) {
-	hit, ok, err := t.log(ch).LookupIdempotency(c07Ctx, message.IdempotencyKey{FromUID: p.UID, ClientMsgNo: p.No})
+	hit, ok, err := t.log(ch).LookupIdempotency(t.cx(ch), message.IdempotencyKey{FromUID: p.UID, ClientMsgNo: p.No})
 	if ok && err == nil && hit.Offset != hit.MessageSeq-1 {
 		return c07Hit{}, ok, fmt.Errorf("offset %d does not match seq %d", hit.Offset, hit.MessageSeq)
 	}
@@ -271,27 +297,27 @@ func (t *c07Typed) LookupPair(ch *c07Chan, p c07Pair) (c07Hit, bool, error) {
 }
 
 func (t *c07Typed) LastSender(ch *c07Chan, uid string, through uint64) (uint64, bool, error) {
-	return t.log(ch).GetLastSenderMessageSeq(c07Ctx, uid, through)
+	return t.log(ch).GetLastSenderMessageSeq(t.cx(ch), uid, through)
 }
 
 func (t *c07Typed) Retention(ch *c07Chan) (c07Ret, error) {
-	st, ok, err := t.log(ch).LoadRetentionState(c07Ctx)
+	st, ok, err := t.log(ch).LoadRetentionState(t.cx(ch))
 	return c07Ret{ok, st.LocalRetentionThroughSeq, st.PhysicalRetentionThroughSeq, st.RetainedMaxSeq}, err
 }
 
 func (t *c07Typed) Checkpoint(ch *c07Chan) (c07Ckpt, error) {
-	c, ok, err := t.log(ch).LoadCheckpoint(c07Ctx)
+	c, ok, err := t.log(ch).LoadCheckpoint(t.cx(ch))
 	return c07Ckpt{ok, c.Epoch, c.LogStartOffset, c.HW}, err
 }
 
 func (t *c07Typed) ExtraAudit(ch *c07Chan) (string, any) {
 	// argument validation documented on the lookups
 	l := t.log(ch)
-	if _, _, err := l.GetBySeq(c07Ctx, 0); !errors.Is(err, db.ErrInvalidArgument) {
+	if _, _, err := l.GetBySeq(t.cx(ch), 0); !errors.Is(err, db.ErrInvalidArgument) {
 		return "get-by-seq-0:not-rejected", fmt.Sprint(err)
 	}
 	// newest visible message agrees with the model's last row
-	m, ok, err := l.GetLastVisibleMessage(c07Ctx, 0)
+	m, ok, err := l.GetLastVisibleMessage(t.cx(ch), 0)
 	var want *c07Rec
 	for seq := ch.LEO; seq >= ch.lowSeq() && seq > 0; seq-- {
 		if ch.Rows[seq] != nil {
